@@ -246,7 +246,17 @@ func panicInCodeUnderTest(stack string) bool {
 		if !after || strings.HasPrefix(l, "runtime.") || strings.HasPrefix(l, "runtime/") {
 			continue
 		}
-		return strings.HasPrefix(l, "github.com/B1NARY-GR0UP/originium")
+		// the panic may be raised in a library the repository calls (its logger's Panicf goes through zap): what
+		// counts is whose code is reached first on the way up - the repository's or the harness's
+		if strings.HasPrefix(l, "verif/harness.nopLogger.") {
+			continue // the harness's silent logger stands in for the repository's: its Panicf is the repository panicking
+		}
+		if strings.HasPrefix(l, "github.com/B1NARY-GR0UP/originium") {
+			return true
+		}
+		if strings.HasPrefix(l, "verif/") || strings.HasPrefix(l, "main.") {
+			return false
+		}
 	}
 	return false
 }
